@@ -325,11 +325,20 @@ Section Closed.
       end
     else OkS st.
   Proof.
-    unfold SimSkel.sched_phase.
+    unfold SimSkel.sched_phase, SimSkel.apply_schedule.
     destruct (Simulator_recompute_cond (iter st) (last_upd st) (resolve st) maxrec); [|reflexivity].
     destruct (num_view (iter st) (occ st) (num st)) as [v|e]; [|reflexivity].
     cbn. destruct (num_apply (iter st) (num st) (sched v)); reflexivity.
   Qed.
+
+  Lemma apply_schedule_eq (st : state) v s :
+    apply_schedule N V Sch num_apply st v s =
+    match num_apply (iter st) (num st) s with
+    | Ok n => OkS (mkState (iter st) false (Some (iter st)) (queue st) (occ st) (ev_hist st)
+                           (hist st) (calls st ++ [(iter st, v)]) (occ_log st) n)
+    | Err e => ErrS e (log_call N V st v)
+    end.
+  Proof. unfold SimSkel.apply_schedule. cbn. destruct (num_apply (iter st) (num st) s); reflexivity. Qed.
 
   Lemma tail_phase_eq (st : state) :
     tail_phase st =
@@ -962,4 +971,375 @@ Section C01.
         destruct (i_good_h _ _ _ I _ _ Ie) as (_ & E & _). auto.
       + intros (u, a) Ia. simpl. destruct (i_good_h _ _ _ I _ _ Ia) as (_ & E & Lu). lia.
   Qed.
+
+  (* ---- C01, assembled -------------------------------------------------------------------- *)
+  Lemma c01_run n0 :
+    (exists st, run (fuel_of evs) (init N V evs n0) = Done st /\ LoopInv st /\ loop_guard st = false) \/
+    (exists e st, run (fuel_of evs) (init N V evs n0) = Raised e st /\ num_err e).
+  Proof.
+    apply run_inv; [apply init_inv|]. unfold fuel_of. simpl iter.
+    pose proof (max_ts_nonneg evs). rewrite Z2Nat.id; lia.
+  Qed.
+
+  Lemma c01_trichotomy n0 :
+    match run (fuel_of evs) (init N V evs n0) with
+    | Done st => queue st = [] /\ occ st = []
+    | Raised e _ => num_err e
+    | OutOfFuel _ => False
+    end.
+  Proof.
+    destruct (c01_run n0) as [(st & R & L & G)|(e & st & R & NE)]; rewrite R; auto.
+    destruct (final_props st L G) as (A & B & _). auto.
+  Qed.
+
+  Lemma c01_terminates n0 : (forall e, ~ num_err e) ->
+    exists st, run (fuel_of evs) (init N V evs n0) = Done st /\ queue st = [] /\ occ st = [].
+  Proof.
+    intro NR. destruct (c01_run n0) as [(st & R & L & G)|(e & st & R & NE)].
+    - destruct (final_props st L G) as (A & B & _). eauto.
+    - destruct (NR e NE).
+  Qed.
+
+  Lemma c01_done_inv n0 st :
+    run (fuel_of evs) (init N V evs n0) = Done st -> LoopInv st /\ loop_guard st = false.
+  Proof.
+    intro R. destruct (c01_run n0) as [(st' & R' & L & G)|(e & st' & R' & NE)]; rewrite R in R'.
+    - inversion R'; subst. auto.
+    - discriminate.
+  Qed.
+
+  Lemma c01_once n0 st : run (fuel_of evs) (init N V evs n0) = Done st ->
+    forall x, In x sessions ->
+      cnt (fun p => is_plug (sid x) (snd p)) (hist st) = 1%nat /\
+      cnt (fun p => is_unpl (sid x) (snd p)) (hist st) = 1%nat /\
+      In (s_arrival x, EPlugin (s_arrival x) x) (hist st) /\
+      In (s_departure x, EUnplug (s_departure x) x) (hist st).
+  Proof.
+    intro R. destruct (c01_done_inv _ _ R) as (L & G).
+    destruct (final_props st L G) as (_ & _ & H & _). exact H.
+  Qed.
+
+  Lemma c01_order n0 st : run (fuel_of evs) (init N V evs n0) = Done st ->
+    sorted (map snd (hist st)) /\ (forall u e, In (u, e) (hist st) -> u = ev_ts e).
+  Proof.
+    intro R. destruct (c01_done_inv _ _ R) as (L & G). split; [apply (l_hsorted _ L)|].
+    intros u e I. destruct (i_good_h _ _ _ (l_inv _ L) _ _ I) as (_ & E & _). exact E.
+  Qed.
+
+  Lemma c01_connected n0 st : run (fuel_of evs) (init N V evs n0) = Done st ->
+    map fst (occ_log st) = zrange (iter st) /\
+    forall t o, In (t, o) (occ_log st) -> forall s y,
+      occ_get s o = Some y <-> In y sessions /\ s_station y = s /\ s_arrival y <= t < s_departure y.
+  Proof.
+    intro R. destruct (c01_done_inv _ _ R) as (L & G). split; [apply (l_occlog _ L)|apply (l_occchar _ L)].
+  Qed.
+
+  Lemma c01_final_iter n0 st : run (fuel_of evs) (init N V evs n0) = Done st ->
+    iter st = 1 + last_ts (hist st).
+  Proof.
+    intro R. destruct (c01_done_inv _ _ R) as (L & G).
+    destruct (final_props st L G) as (_ & _ & _ & H). exact H.
+  Qed.
 End C01.
+
+(* ========================================================================================== *)
+(* Part 3: when the scheduler is invoked — arbitrary event lists (C05)                        *)
+(* ========================================================================================== *)
+Definition last_opt {A} (l : list A) : option A := fold_left (fun _ a => Some a) l None.
+Lemma last_opt_snoc {A} (l : list A) a : last_opt (l ++ [a]) = Some a.
+Proof. unfold last_opt. rewrite fold_left_app. reflexivity. Qed.
+
+(* the most recent invocation strictly before period t *)
+Definition prev_call (cs : list Z) (t : Z) : option Z := last_opt (filter (fun c => c <? t) cs).
+
+Lemma filter_all {A} (f : A -> bool) l : (forall a, In a l -> f a = true) -> filter f l = l.
+Proof.
+  induction l as [|a r IH]; simpl; intros H; auto.
+  rewrite H by auto. f_equal. apply IH. intros; apply H; auto.
+Qed.
+
+Section C05.
+  Variables N V Sch : Type.
+  Variable stations : list Z.
+  Variable maxrec : option Z.
+  Variable num_view : Z -> occupancy -> N -> res V.
+  Variable num_apply : Z -> N -> Sch -> res N.
+  Variable num_charge : Z -> occupancy -> N -> res N.
+  Variable num_store : Z -> occupancy -> N -> N.
+  Variable sched : V -> Sch.
+
+  Notation state := (state N V).
+  Notation mkState := (mkState N V).
+  Notation process_event := (process_event N V stations).
+  Notation process_all := (process_all N V stations).
+  Notation events_phase := (events_phase N V stations).
+  Notation sched_phase := (sched_phase N V Sch maxrec num_view num_apply sched).
+  Notation tail_phase := (tail_phase N V num_charge num_store).
+  Notation step := (step N V Sch stations maxrec num_view num_apply num_charge num_store sched).
+  Notation run := (run N V Sch stations maxrec num_view num_apply num_charge num_store sched).
+  Notation loop_guard := (loop_guard N V).
+
+  Ltac red_st := cbn [iter hist resolve last_upd calls occ_log num queue occ ev_hist log_event set_queue
+                       set_occ set_flags set_num set_iter log_call log_occ set_ev_hist] in *.
+
+  (* loop-head states reachable from s0 *)
+  Inductive reach (s0 : state) : state -> Prop :=
+  | reach_init : reach s0 s0
+  | reach_step st st' : reach s0 st -> loop_guard st = true -> step st = OkS st' -> reach s0 st'.
+
+  Lemma run_reach (s0 : state) : forall fuel st0 st,
+    reach s0 st0 -> run fuel st0 = Done st -> reach s0 st /\ loop_guard st = false.
+  Proof.
+    induction fuel as [|f IH]; simpl; intros st0 st R H; [discriminate|].
+    destruct (loop_guard st0) eqn:G.
+    - destruct (step st0) as [st1|e st1] eqn:S; [|discriminate].
+      apply IH with (st0 := st1); auto. eapply reach_step; eauto.
+    - inversion H; subst. auto.
+  Qed.
+
+  (* every processed event sets _resolve and leaves the logs alone *)
+  Lemma process_event_facts (st st' : state) e :
+    process_event st e = OkS st' ->
+    iter st' = iter st /\ hist st' = hist st /\ calls st' = calls st /\ resolve st' = true.
+  Proof.
+    destruct e as [ts x|ts x|ts].
+    - rewrite process_plugin_eq. destruct (net_plugin stations x (occ st)); intro H; inversion H; subst.
+      red_st. auto.
+    - rewrite process_unplug_eq. destruct (net_unplug stations (s_station x) (sid x) (occ st));
+        intro H; inversion H; subst. red_st. auto.
+    - rewrite process_recompute_eq. intro H; inversion H; subst. red_st. auto.
+  Qed.
+
+  Lemma process_all_facts cur : forall (st st' : state),
+    process_all cur st = OkS st' ->
+    iter st' = iter st /\ hist st' = hist st ++ map (pair (iter st)) cur /\ calls st' = calls st /\
+    (cur <> [] -> resolve st' = true) /\ (cur = [] -> st' = st).
+  Proof.
+    induction cur as [|e r IH]; simpl; intros st st' H.
+    - inversion H; subst. rewrite app_nil_r. repeat split; auto; intro; congruence.
+    - destruct (process_event (log_event N V st e) e) as [st1|ex st1] eqn:P; [|discriminate].
+      destruct (process_event_facts _ _ _ P) as (A & B & C & D). red_st.
+      destruct (IH _ _ H) as (A' & B' & C' & D' & E').
+      split; [congruence|]. split; [rewrite B', B, A, <- app_assoc; reflexivity|].
+      split; [congruence|]. split; [|intro; discriminate].
+      intros _. destruct r; [rewrite (E' eq_refl); auto|apply D'; discriminate].
+  Qed.
+
+  Lemma events_phase_facts (st st1 : state) :
+    events_phase st = OkS st1 ->
+    exists cur, iter st1 = iter st /\ hist st1 = hist st ++ map (pair (iter st)) cur /\
+      calls st1 = calls st /\ (cur <> [] -> resolve st1 = true) /\
+      (cur = [] -> resolve st1 = resolve st /\ last_upd st1 = last_upd st).
+  Proof.
+    unfold SimSkel.events_phase. destruct (q_pop_current (iter st) (queue st)) as [cur rest].
+    intro H. destruct (process_all_facts _ _ _ H) as (A & B & C & D & E). red_st.
+    exists cur. split; auto. split; auto. split; auto. split; auto.
+    intro Ec. rewrite (E Ec). split; reflexivity.
+  Qed.
+
+  (* invariant at the head of the loop, for ANY event list *)
+  Definition invoked_spec (cs : list Z) (h : list (Z * event)) (t : Z) : Prop :=
+    In t cs <->
+    (exists e, In (t, e) h) \/
+    (exists k, maxrec = Some k /\
+               match prev_call cs t with None => True | Some l => k <= t - l end).
+
+  Record CInv (s0 st : state) : Prop := {
+    c_iter : 0 <= iter st;
+    c_res : resolve st = false;
+    c_last : last_upd st = last_opt (map fst (calls st));
+    c_lt : forall t, In t (map fst (calls st)) -> 0 <= t < iter st;
+    c_incr : StronglySorted Z.lt (map fst (calls st));
+    c_hlt : forall u e, In (u, e) (hist st) -> 0 <= u < iter st;
+    c_iff : forall t, 0 <= t < iter st -> invoked_spec (map fst (calls st)) (hist st) t;
+    c_origin : forall t v, In (t, v) (calls st) ->
+        exists s s1, reach s0 s /\ iter s = t /\ loop_guard s = true /\ events_phase s = OkS s1 /\
+          Simulator_recompute_cond t (last_upd s1) (resolve s1) maxrec = true /\
+          num_view t (occ s1) (num s1) = Ok v /\
+          (forall e, In (t, e) (hist st) <-> In (t, e) (hist s1)) }.
+
+  Lemma sorted_lt_snoc l t : StronglySorted Z.lt l -> (forall a, In a l -> a < t) -> StronglySorted Z.lt (l ++ [t]).
+  Proof.
+    induction 1 as [|h r Hs IH Hf]; simpl; intros K.
+    - constructor; constructor.
+    - constructor; [apply IH; intros; apply K; auto|].
+      apply Forall_app. split; auto.
+  Qed.
+
+  Lemma prev_call_stable cs t t' : t' <= t -> prev_call (cs ++ [t]) t' = prev_call cs t'.
+  Proof.
+    intro L. unfold prev_call. rewrite filter_app. simpl.
+    destruct (t <? t') eqn:E; [apply Z.ltb_lt in E; lia|]. rewrite app_nil_r. reflexivity.
+  Qed.
+  Lemma prev_call_all cs t : (forall a, In a cs -> a < t) -> prev_call cs t = last_opt cs.
+  Proof.
+    intro H. unfold prev_call. rewrite filter_all; auto. intros a Ia. apply Z.ltb_lt; auto.
+  Qed.
+
+  Lemma cinv_step (s0 st st' : state) :
+    reach s0 st -> CInv s0 st -> loop_guard st = true -> step st = OkS st' ->
+    CInv s0 st' /\ iter st' = iter st + 1.
+  Proof.
+    intros RS C G S. set (t := iter st).
+    unfold SimSkel.step in S.
+    destruct (events_phase st) as [st1|e1 st1] eqn:EP; [|discriminate]. cbn [bindS] in S.
+    destruct (events_phase_facts _ _ EP) as (cur & It1 & H1 & C1 & R1 & E1).
+    fold t in It1, H1. rewrite sched_phase_eq in S.
+    (* the state after the scheduling block: st2 *)
+    assert (exists (st2 : state) (called : bool), tail_phase st2 = OkS st' /\ iter st2 = t /\ hist st2 = hist st1 /\
+              resolve st2 = false /\
+              calls st2 = calls st ++ (if called then
+                 match num_view t (occ st1) (num st1) with Ok v => [(t, v)] | Err _ => [] end else []) /\
+              (called = true -> exists v, num_view t (occ st1) (num st1) = Ok v) /\
+              called = Simulator_recompute_cond t (last_upd st1) (resolve st1) maxrec /\
+              last_upd st2 = if called then Some t else last_upd st1) as (st2 & called & TP & It2 & H2 & R2 & C2 & CV & CC & L2).
+    { rewrite It1 in S. fold t in S.
+      destruct (Simulator_recompute_cond t (last_upd st1) (resolve st1) maxrec) eqn:RC.
+      - destruct (num_view t (occ st1) (num st1)) as [v|e] eqn:NV; [|discriminate].
+        destruct (num_apply t (num st1) (sched v)) as [n|e] eqn:NA; [|discriminate].
+        cbn [bindS] in S. eexists. exists true. split; [exact S|]. red_st. rewrite C1.
+        repeat split; eauto.
+      - cbn [bindS] in S. exists st1, false. split; [exact S|]. rewrite app_nil_r.
+        rewrite recompute_cond_spec in RC. apply orb_false_iff in RC. destruct RC as (RC & _).
+        repeat split; auto. intro; discriminate. }
+    rewrite tail_phase_eq in TP.
+    destruct (num_charge (iter st2) (occ st2) (num st2)) as [n|e]; [|discriminate].
+    inversion TP; subst st'; clear TP. red_st. split; [|rewrite It2; reflexivity].
+    assert (Hcur : cur <> [] -> called = true).
+    { intro NE. rewrite CC, recompute_cond_spec, (R1 NE). reflexivity. }
+    assert (Hold : forall a, In a (map fst (calls st)) -> a < t).
+    { intros a Ia. apply (c_lt _ _ C) in Ia. fold t in Ia. lia. }
+    assert (Hcalls : map fst (calls st2) = map fst (calls st) ++ (if called then [t] else [])).
+    { rewrite C2, map_app. f_equal. destruct called; auto.
+      destruct (CV eq_refl) as (v & ->). reflexivity. }
+    constructor; red_st; rewrite ?It2, ?H2, ?R2.
+    - pose proof (c_iter _ _ C). fold t in H. lia.
+    - reflexivity.
+    - rewrite L2, Hcalls. destruct called.
+      + rewrite last_opt_snoc. reflexivity.
+      + rewrite app_nil_r. destruct cur as [|c0 cr].
+        * destruct (E1 eq_refl) as (_ & ->). apply (c_last _ _ C).
+        * discriminate (Hcur ltac:(discriminate)).
+    - intros a Ia. rewrite Hcalls in Ia. apply in_app_or in Ia. pose proof (c_iter _ _ C). fold t in H.
+      destruct Ia as [Ia|Ia].
+      + apply (c_lt _ _ C) in Ia. fold t in Ia. lia.
+      + destruct called; simpl in Ia; [|contradiction]. destruct Ia as [<-|[]]. lia.
+    - rewrite Hcalls. destruct called; [|rewrite app_nil_r; apply (c_incr _ _ C)].
+      apply sorted_lt_snoc; [apply (c_incr _ _ C)|exact Hold].
+    - intros u e Ie. rewrite H1 in Ie. apply in_app_or in Ie. pose proof (c_iter _ _ C). fold t in H.
+      destruct Ie as [Ie|Ie].
+      + apply (c_hlt _ _ C) in Ie. fold t in Ie. lia.
+      + apply in_map_iff in Ie. destruct Ie as (a & Ea & _). inversion Ea; subst. lia.
+    - intros t' Ht'. unfold invoked_spec. rewrite Hcalls, H1.
+      destruct (Z.eq_dec t' t) as [->|Dt].
+      + (* the period that has just been executed *)
+        assert (P1 : In t (map fst (calls st) ++ (if called then [t] else [])) <-> called = true).
+        { split.
+          - intro I. apply in_app_or in I. destruct I as [I|I].
+            + apply Hold in I. lia.
+            + destruct called; [reflexivity|destruct I].
+          - intros ->. apply in_or_app. right. simpl. auto. }
+        assert (P2 : (exists e, In (t, e) (hist st ++ map (pair t) cur)) <-> cur <> []).
+        { split.
+          - intros (e & I). apply in_app_or in I. destruct I as [I|I].
+            + apply (c_hlt _ _ C) in I. fold t in I. lia.
+            + destruct cur; [destruct I|discriminate].
+          - intro NE. destruct cur as [|c0 cr]; [congruence|]. exists c0.
+            apply in_or_app. right. simpl. auto. }
+        assert (P3 : prev_call (map fst (calls st) ++ (if called then [t] else [])) t
+                     = last_opt (map fst (calls st))).
+        { destruct called.
+          - rewrite prev_call_stable by lia. apply prev_call_all. exact Hold.
+          - rewrite app_nil_r. apply prev_call_all. exact Hold. }
+        rewrite P1, P2, P3.
+        destruct cur as [|c0 cr].
+        * destruct (E1 eq_refl) as (Er & El). rewrite CC, recompute_cond_spec, Er, El, (c_res _ _ C), (c_last _ _ C).
+          simpl orb. split.
+          -- intro H. right. destruct maxrec as [k|]; [|discriminate]. exists k. split; auto.
+             destruct (last_opt (map fst (calls st))); auto. apply Z.leb_le; auto.
+          -- intros [H|(k & -> & H)]; [congruence|].
+             destruct (last_opt (map fst (calls st))); auto. apply Z.leb_le; auto.
+        * split; [intros _; left; discriminate|intros _; apply Hcur; discriminate].
+      + (* an earlier period: nothing changes *)
+        assert (Lt' : 0 <= t' < t) by lia.
+        pose proof (c_iff _ _ C t' Lt') as Old. unfold invoked_spec in Old.
+        assert (Q1 : In t' (map fst (calls st) ++ (if called then [t] else [])) <-> In t' (map fst (calls st))).
+        { split; [|intro; apply in_or_app; auto]. intro I. apply in_app_or in I. destruct I as [I|I]; auto.
+          destruct called; simpl in I; [destruct I as [I|[]]; congruence|contradiction]. }
+        assert (Q2 : (exists e, In (t', e) (hist st ++ map (pair t) cur)) <-> exists e, In (t', e) (hist st)).
+        { split; intros (e & I); exists e; [|apply in_or_app; auto].
+          apply in_app_or in I. destruct I as [I|I]; auto.
+          apply in_map_iff in I. destruct I as (a & Ea & _). inversion Ea; congruence. }
+        assert (Q3 : prev_call (map fst (calls st) ++ (if called then [t] else [])) t'
+                     = prev_call (map fst (calls st)) t').
+        { destruct called; [apply prev_call_stable; lia|rewrite app_nil_r; reflexivity]. }
+        rewrite Q1, Q2, Q3. exact Old.
+    - intros t' v Iv. rewrite C2 in Iv. apply in_app_or in Iv. destruct Iv as [Iv|Iv].
+      + destruct (c_origin _ _ C _ _ Iv) as (s & s1 & A1 & A2 & A3 & A4 & A5 & A6 & A7).
+        exists s, s1. repeat split; auto.
+        * intro I. apply A7. rewrite H1 in I. apply in_app_or in I. destruct I as [I|I]; auto.
+          apply in_map_iff in I. destruct I as (a & Ea & _). inversion Ea as [[Et Ee]].
+          assert (Hin : In t' (map fst (calls st))) by (apply in_map_iff; exists (t', v); auto).
+          apply Hold in Hin. lia.
+        * intro I. rewrite H1. apply in_or_app. left. apply A7; auto.
+      + destruct called; [|destruct Iv].
+        destruct (num_view t (occ st1) (num st1)) as [v0|] eqn:NV; [|destruct Iv].
+        destruct Iv as [Iv|[]]. inversion Iv; subst t' v0.
+        exists st, st1. repeat split; auto; try tauto.
+  Qed.
+
+  Lemma cinv_init evs n0 : CInv (init N V evs n0) (init N V evs n0).
+  Proof.
+    unfold init. constructor; red_st; simpl; try reflexivity; try lia; try (intros; contradiction).
+    constructor.
+  Qed.
+
+  Lemma cinv_reach (s0 st : state) : CInv s0 s0 -> reach s0 st -> CInv s0 st.
+  Proof.
+    intros C0 R. induction R; auto.
+    eapply cinv_step; eauto.
+  Qed.
+
+  Lemma c05_done evs n0 fuel st :
+    run fuel (init N V evs n0) = Done st -> CInv (init N V evs n0) st.
+  Proof.
+    intro R. destruct (run_reach _ _ _ _ (reach_init _) R) as (RS & _).
+    apply cinv_reach; auto. apply cinv_init.
+  Qed.
+
+  (* isolation: one iteration, written so that the scheduler only appears as `sched v` *)
+  Lemma step_isolated (st : state) :
+    step st =
+    bindS N V (events_phase st) (fun s1 =>
+      if Simulator_recompute_cond (iter s1) (last_upd s1) (resolve s1) maxrec then
+        match num_view (iter s1) (occ s1) (num s1) with
+        | Err e => ErrS e s1
+        | Ok v => bindS N V (apply_schedule N V Sch num_apply s1 v (sched v)) tail_phase
+        end
+      else tail_phase s1).
+  Proof.
+    unfold SimSkel.step. destruct (events_phase st) as [s1|e s1]; cbn [bindS]; [|reflexivity].
+    unfold SimSkel.sched_phase.
+    destruct (Simulator_recompute_cond (iter s1) (last_upd s1) (resolve s1) maxrec); [|reflexivity].
+    destruct (num_view (iter s1) (occ s1) (num s1)); reflexivity.
+  Qed.
+End C05.
+
+(* two schedulers that return the same schedule for every view that is actually shown drive the
+   simulator through the same states *)
+Lemma run_ext (N V Sch : Type) stations maxrec num_view num_apply num_charge num_store
+      (sched1 sched2 : V -> Sch) :
+  (forall v, sched1 v = sched2 v) ->
+  forall fuel st,
+    run N V Sch stations maxrec num_view num_apply num_charge num_store sched1 fuel st =
+    run N V Sch stations maxrec num_view num_apply num_charge num_store sched2 fuel st.
+Proof.
+  intros E. induction fuel as [|f IH]; intro st; simpl; auto.
+  destruct (loop_guard N V st); auto.
+  rewrite !step_isolated.
+  destruct (events_phase N V stations st) as [s1|e s1]; cbn [bindS]; auto.
+  destruct (Simulator_recompute_cond (iter s1) (last_upd s1) (resolve s1) maxrec).
+  - destruct (num_view (iter s1) (occ s1) (num s1)); auto. rewrite E.
+    destruct (bindS _ _ _ _); auto.
+  - destruct (tail_phase _ _ _ _ s1); auto.
+Qed.
